@@ -1156,6 +1156,8 @@ BTree_getstate(BTree *self)
                 if (i)
                 {
                     COPY_KEY_TO_OBJECT(o, self->data[i].key);
+                    if (o == NULL)
+                        goto err;
                     PyTuple_SET_ITEM(r, l, o);
                     l++;
                 }
